@@ -72,6 +72,8 @@ def events_coq(evs):
 def bounds_coq(b):
     if b is None:
         return "None"
+    if isinstance(b, str):       # a Coq term of type option (list Q * list Q), used as is (C04 lifetimes)
+        return b
     return f"(Some ({qlist(b[0])}, {qlist(b[1])}))"
 
 
